@@ -143,6 +143,15 @@ func (a *schedChild) OnReceive(ctx vivid.ActorContext) {
 			if known {
 				x.ev(map[string]any{"e": "Stop", "a": a.name, "r": m.Ref, "s": "cancel", "tb": tb, "t": t})
 			}
+		case "cron":
+			// a valid expression with a seconds field: every second
+			msg := schedTok{X: x, Tok: m.Tok, Pad: padFor(m.Tok)}
+			tb := x.ms()
+			if err := s.Cron(m.Recv, "* * * * * *", msg, vivid.WithSchedulerReference(m.Ref)); err != nil {
+				x.ev(map[string]any{"e": "SchedError", "a": a.name, "r": m.Ref, "s": err.Error()})
+				return
+			}
+			x.ev(map[string]any{"e": "Sched", "a": a.name, "r": m.Ref, "x": m.RecvName, "k": "cron", "d": 1000, "m": m.Tok, "tb": tb, "t": x.ms()})
 		case "stall":
 			_ = s.Loop(m.Recv, m.D, newRmsg(1, "tell", 16, randSrc(1)), vivid.WithSchedulerReference("stall-remote"))
 		case "clear":
@@ -335,6 +344,9 @@ func runSchedBehaviour(b *schedBehaviour, remoteStall bool) (events []map[string
 			rn := name(st.O[3])
 			sys.Tell(refs[a], schedCmd{Op: fmt.Sprint(st.O[4]), Ref: fmt.Sprint(st.O[2]), Recv: refs[rn], RecvName: rn,
 				D: time.Duration(st.O[5].(float64)) * schedTick, Tok: int(st.O[6].(float64))})
+		case "cron":
+			rn := name(st.O[3])
+			sys.Tell(refs[a], schedCmd{Op: "cron", Ref: fmt.Sprint(st.O[2]), Recv: refs[rn], RecvName: rn, Tok: int(st.O[4].(float64))})
 		case "cron-invalid":
 			sys.Tell(refs[a], schedCmd{Op: "cron-invalid", Ref: fmt.Sprint(st.O[2]), Tok: 1000 + idx})
 		case "cancel":
@@ -455,6 +467,51 @@ func checkC20(c *core.Ctx) {
 				}
 				traces = append(traces, &Trace{Events: ev, Class: cls, Name: fmt.Sprintf("%s#%d", gen, bi), Scenario: b})
 			}(bi, b)
+		}
+		wg.Wait()
+	}
+	// directed: valid cron expressions (every second), cancelled / cleared / left running; 3.5 s each, run in parallel
+	{
+		var wg sync.WaitGroup
+		var mu sync.Mutex
+		for i := 0; i < core.Pick(c, 3, 12); i++ {
+			wg.Add(1)
+			go func(i int) {
+				defer wg.Done()
+				b := &schedBehaviour{Paths: []string{"/a", "/b"}}
+				add := func(t int, o ...any) {
+					b.Steps = append(b.Steps, struct {
+						T int   `json:"t"`
+						O []any `json:"o"`
+					}{T: t, O: o})
+				}
+				add(0, "cron", "/a", "c1", "/b", float64(1))
+				add(0, "cron", "/b", "c2", "/b", float64(2))
+				switch i % 4 {
+				case 0:
+					add(14, "cancel", "/a", "c1", "ok")
+				case 1:
+					add(16, "clear", "/b")
+				case 2:
+					add(15, "kill", "/a")
+				case 3:
+					add(13, "restart", "/b")
+				}
+				add(34, "tick")
+				ev, healthy, _, _, err := runSchedBehaviour(b, false)
+				mu.Lock()
+				defer mu.Unlock()
+				if err != nil {
+					c.Broken("scheduler replay cron#%d: %v", i, err)
+					return
+				}
+				c.Add("evaluations", 1)
+				if !healthy {
+					unhealthy++
+					return
+				}
+				traces = append(traces, &Trace{Events: ev, Class: "sched-cron-every-second", Name: fmt.Sprintf("cron#%d", i), Scenario: b})
+			}(i)
 		}
 		wg.Wait()
 	}
